@@ -31,6 +31,9 @@ FLAVOURS = {
     'u-gcc':      ('g++',     '-std=c++17 -O0', 'single'),
     'u-gcc-O2':   ('g++',     '-std=c++17 -O2', 'single'),
     'u-clang-O1': ('clang++', '-std=c++17 -O1', 'single'),
+    'u-gcc-vlog': ('g++',     '-std=c++17 -O0 -DHFSM2_ENABLE_VERBOSE_DEBUG_LOG', 'single'),
+    'u-clang-vlog': ('clang++', '-std=c++11 -O1 -DHFSM2_ENABLE_VERBOSE_DEBUG_LOG', 'single'),
+    'u-clang-dev': ('clang++', '-std=c++11 -O0', 'dev'),
     'id-clang':   ('clang++', '-std=c++11 -O0', 'single'),
     'id-gcc':     ('g++',     '-std=c++11 -O0', 'single'),
     'id-gcc17':   ('g++',     '-std=c++17 -O0', 'single'),
